@@ -6,6 +6,7 @@ import (
 	"os"
 	"sort"
 	"strings"
+	"sync/atomic"
 	"time"
 
 	hg "github.com/mosaicnetworks/babble/src/hashgraph"
@@ -303,6 +304,14 @@ func init() {
 			}
 			ev.Fail("%d work items failed in the harness", len(crashes))
 		}
+		// (c) the real babbling loop (Node.babble + the control timer's run loop, goroutines and all) of a node that has
+		// nobody to gossip with: 3 genesis validators, its own peer list holds only itself, a submitted transaction.
+		// The harness's timer factory fires at once, at most 200 times. The loop must leave on its own (Suspended)
+		// once the undetermined events exceed limit x validators.
+		loopViol := c17Loop()
+		for _, v := range loopViol {
+			tot.Viol = append(tot.Viol, v)
+		}
 		// (b) self-suspension on the cluster engine
 		var sItems []sched.Item
 		d2 := 5
@@ -519,4 +528,70 @@ func checkEviction(viol *[]ev.Violation) int {
 		}
 	}
 	return observed
+}
+
+func c17Loop() []ev.Violation {
+	var out []ev.Violation
+	for _, limit := range []int{2, 5} {
+		c := sim.NewCluster(sim.Config{N: 3, Solo: true, SuspendLimit: limit, SelfOnly: map[int]bool{0: true}})
+		n := c.Nodes[0]
+		ticks := int64(0)
+		n.Node.VSetTimerFactory(func(time.Duration) <-chan time.Time {
+			if atomic.AddInt64(&ticks, 1) > 200 {
+				return nil // no further heartbeat
+			}
+			ch := make(chan time.Time, 1)
+			ch <- time.Time{}
+			return ch
+		})
+		c.Submit(0)
+		done := make(chan struct{})
+		go func() { n.Node.VBabbleLoop(); close(done) }()
+		left := false
+		deadline := time.After(60 * time.Second)
+	wait:
+		for {
+			select {
+			case <-done:
+				left = true
+				break wait
+			case <-deadline:
+				break wait
+			case <-time.After(5 * time.Millisecond):
+				if atomic.LoadInt64(&ticks) > 200 {
+					// the timer has stopped firing: give the last iteration time to finish, then look
+					select {
+					case <-done:
+						left = true
+					case <-time.After(2 * time.Second):
+					}
+					break wait
+				}
+			}
+		}
+		und := len(n.Node.VHashgraph().UndeterminedEvents) - n.Node.VInitialUndetermined()
+		st := n.Node.GetState().String()
+		if !left && atomic.LoadInt64(&ticks) <= 200 {
+			ev.Fail("C17 loop: the babbling loop neither left nor used up its heartbeats within 60 s (ticks=%d)", atomic.LoadInt64(&ticks))
+		}
+		if st != "Suspended" && und > limit*3 {
+			out = append(out, ev.Violation{Property: "C17", Key: "loop-did-not-self-suspend",
+				What:   fmt.Sprintf("a node alone with its 3-validator set (limit %d): after %d heartbeats of the real babbling loop it is %s with %d new undetermined events > %d", limit, atomic.LoadInt64(&ticks)-1, st, und, limit*3),
+				Replay: map[string]interface{}{"limit": limit}})
+		}
+		if st == "Suspended" && und <= limit*3 {
+			out = append(out, ev.Violation{Property: "C17", Key: "loop-suspended-too-early",
+				What:   fmt.Sprintf("limit %d: suspended with only %d new undetermined events (<= %d)", limit, und, limit*3),
+				Replay: map[string]interface{}{"limit": limit}})
+		}
+		if !left {
+			n.Node.Shutdown()
+			select {
+			case <-done:
+			case <-time.After(5 * time.Second):
+			}
+		}
+		c.Close()
+	}
+	return out
 }
